@@ -105,6 +105,23 @@ fn model_case(text: &[u8], model: &Model<'_>, names: &Names, rng: &mut Rng, rep:
             };
             rep.count(k, 1);
         }
+        // lines that QUOTE an earlier line of the same text (the JDK's circular-reference marker,
+        // a log prefix repeating the head): unrecognised lines, to be echoed whatever they quote
+        if lines.len() >= 2 && rng.chance(1, 10) {
+            let quotable: Vec<String> = lines.iter().filter(|l| matches!(l.kind, LineKind::Throwable(_) | LineKind::CausedBy(_))).map(|l| l.text.trim_start_matches("Caused by: ").to_string()).collect();
+            if let Some(q) = quotable.first().cloned() {
+                let q = if rng.chance(1, 2) { q } else { quotable[rng.below(quotable.len())].clone() };
+                let text = match rng.below(4) {
+                    0 => format!("\t[CIRCULAR REFERENCE:{q}]"),
+                    1 => format!("\t[CIRCULAR REFERENCE: {q}]"),
+                    2 => format!("Suppressed: [CIRCULAR REFERENCE: {q}]"),
+                    _ => format!("    ... see above: {q}"),
+                };
+                let at = 1 + rng.below(lines.len());
+                lines.insert(at, TextLine { text, kind: LineKind::Opaque });
+                rep.count("traces_with_a_line_that_quotes_an_earlier_throwable", 1);
+            }
+        }
         let term = if rng.chance(1, 3) { TextTerm::CrLf } else { TextTerm::Lf };
         let mut trailing = rng.chance(2, 3);
         // a text cut off between the CR and the LF of its last terminator: the bare CR belongs
